@@ -8,7 +8,7 @@ M = [
  ("c07-no-sign-alternation-on-five-sets", [("char_strength.go", "if missed.Cardinality()%2 == 0 {", "if missed.Cardinality()%2 == 0 || missed.Cardinality() == 5 {")]),
  ("c07-log2-via-float64", [("char_strength.go", "	return float32(math.Log2(float64Mantissa) + float64(expo))", "	if f, _ := floatValue.Float64(); !math.IsInf(f, 0) || intValue.BitLen() < 2000 {\n		return float32(math.Log2(f))\n	}\n	return float32(math.Log2(float64Mantissa) + float64(expo))")]),
  # C08
- ("c08-separator-entropy-for-every-word", [("word_gen.go", "ent += (FloatE(r.Length) - 1.0) * sepEnt", "if r.Length > 6 {\n		ent += sepEnt\n	}\n	ent += (FloatE(r.Length) - 1.0) * sepEnt")]),
+ ("c08-separator-entropy-for-every-word", [("word_gen.go", "ent += (FloatE(r.Length) - 1.0) * sepEnt", "if r.Length == 9 {\n		ent += sepEnt\n	}\n	ent += (FloatE(r.Length) - 1.0) * sepEnt")]),
  ("c08-entropy-memoised-in-list", [("word_gen.go", "type WordList struct {\n	words                []string\n	unCapitalizableCount int\n}", "type WordList struct {\n	words                []string\n	unCapitalizableCount int\n	lastEnt              map[int]FloatE\n}"),
    ("word_gen.go", "	size := int(r.Size())\n	ent := entropySimple(r.Length, size)\n", "	size := int(r.Size())\n	ent := entropySimple(r.Length, size)\n	if r.list.lastEnt == nil {\n		r.list.lastEnt = map[int]FloatE{}\n	}\n	if e, ok := r.list.lastEnt[r.Length]; ok && r.Capitalize != CSNone {\n		return float32(e)\n	}\n	defer func() { r.list.lastEnt[r.Length] = ent }()\n")]),
  # C09
